@@ -90,6 +90,8 @@ def summarize(crate, path, ck=None, closure=False):
     ps._inl_stack.append(hir.base_path(path))
     if crate.body("microscpi::parser::take_while") is not None:
         ps.take_while_fn = "microscpi::parser::take_while"
+    if crate.body("microscpi::parser::tag") is not None and hir.base_path(path).startswith("microscpi::parser::"):
+        ps.tag_fn = "microscpi::parser::tag"
     ps.curried = curried_roles(crate)
     v = hir.async_full(b["value"])
     params = b["params"]
